@@ -367,10 +367,15 @@ func (s *Swarm[T]) handleTells(ctx context.Context, sess quic.Connection, srcAdd
 			return err
 		}
 		go func() {
-			lr := io.LimitReader(stream, int64(s.mtu))
+			// read one byte past the limit so an oversize message is noticed, not cut
+			lr := io.LimitReader(stream, int64(s.mtu)+1)
 			data, err := io.ReadAll(lr)
 			if err != nil {
 				logctx.Errorln(ctx, err)
+				return
+			}
+			if len(data) > s.mtu {
+				logctx.Errorf(ctx, "dropping tell larger than mtu %d", s.mtu)
 				return
 			}
 			m := p2p.Message[Addr[T]]{
